@@ -93,8 +93,6 @@ def drive(engine, runs, workdir, tag, timeout=1800):
         if p.returncode == 2 or last_run is None:
             raise ToolError("harness %s failed rc=%d: %s" % (engine, p.returncode, p.stderr[-2000:]))
         deaths += 1
-        if deaths > 30:
-            raise ToolError("harness %s died more than 30 times; last: %s" % (engine, p.stderr[-1000:]))
         msgs = [ln for ln in p.stderr.split("\n") if ln.strip()]
         msg = " | ".join(msgs[-3:])[:400].replace('"', "'")
         CRASHES.append({"run": last_run, "rc": p.returncode,
@@ -105,6 +103,10 @@ def drive(engine, runs, workdir, tag, timeout=1800):
         with open(trace, "a") as dst:
             dst.write(json.dumps({"run": last_run, "ev": "reset_after_crash"}) + "\n")
         todo = todo[idx + 1:]
+        if deaths >= 30:
+            # a badly broken build: 30 dead processes are enough evidence; the remaining runs are not executed
+            # (deaths are data - violations of the engine's panic-freedom / memory-safety properties - not tool errors)
+            break
     os.remove(ops)
     return trace
 
